@@ -43,3 +43,15 @@ def enum_str(sym, name, max_len, alphabet, min_len=0):
     for i in range(n):
         out += alphabet[sym.index(name + "|c" + str(i), len(alphabet))]
     return out
+
+
+def tracing(sym):
+    """Context that switches CrossHair tracing back ON inside a `sym.concrete()` region (no-op on replay).
+
+    Needed for the few lines that draw / branch on solver values when the surrounding code (an event loop,
+    file I/O) runs untraced: arithmetic and comparisons on symbolic ints require the tracer."""
+    if getattr(sym, "mode", "") == "symbolic":
+        from crosshair.tracers import ResumedTracing
+        return ResumedTracing()
+    import contextlib
+    return contextlib.nullcontext()
